@@ -610,6 +610,15 @@ func c07(c *Ctx) {
 			switch kind {
 			case 0:
 				v := c.Rnd.Intn(2000)
+				if c.Rnd.Intn(4) == 0 {
+					// a NO-OP write (what every zero-value transfer does: it writes the balance it has read): journalled like
+					// any other write, dropped only when the block's logs are published (removeUnchanged). The value only
+					// selects the input; the model gets the literal
+					if cur := a.GetBalance(); cur != nil && cur.IsInt64() && cur.Sign() >= 0 {
+						v = int(cur.Int64())
+						c.Count("nontrivial:c07:no-op-balance-write")
+					}
+				}
 				op, res = fmt.Sprintf("w %d bal %d", ai, v), Safe(func() string { a.SetBalance(big.NewInt(int64(v))); return "ok" })
 			case 1:
 				v := c.Rnd.Intn(50)
